@@ -374,7 +374,7 @@ def run_tlc_plan(key):
         # parse the dumped graph: nodes (label = state), edges
         text = open(dump).read()
         nodes = {}
-        for m_ in re.finditer(r'^(-?\d+) \[label="(.*?)"(.*?)\];?$', text, re.M):
+        for m_ in re.finditer(r'^(-?\d+) \[label="((?:[^"\\]|\\.)*)"(.*?)\];?$', text, re.M):
             nid, lab, rest = m_.group(1), m_.group(2), m_.group(3)
             st = {}
             for part in lab.split('\\n'):
